@@ -67,6 +67,39 @@ def match_finding(m, findings):
     return None
 
 
+REVERSE_AXES = {"ancestor", "ancestor-or-self", "preceding", "preceding-sibling"}
+STRING_ARG_FUNCS = {"contains", "starts-with", "ends-with", "substring-before", "substring-after", "substring",
+                    "string-length", "normalize-space", "translate", "lower-case", "concat", "string", "number",
+                    "name", "local-name", "namespace-uri", "floor", "ceiling", "round"}
+
+
+def walk_ast(x, fn):
+    if isinstance(x, dict):
+        fn(x)
+        for v in x.values():
+            walk_ast(v, fn)
+    elif isinstance(x, list):
+        for v in x:
+            walk_ast(v, fn)
+
+
+@matcher
+def first_node_of_reverse_axis(m, spec):
+    """A function that converts a node-set argument to a string/number/name takes
+    the first node the query delivers; for a path ending in a reverse axis that
+    is the nearest node, not the first node in document order."""
+    hit = []
+
+    def visit(x):
+        if x.get("t") == "call" and x.get("f") in STRING_ARG_FUNCS:
+            for a in x.get("args", []):
+                if isinstance(a, dict) and a.get("t") == "path" and a.get("steps") and \
+                        any(st["ax"] in REVERSE_AXES for st in a["steps"]):
+                    hit.append(1)
+    walk_ast(m["case"]["e"], visit)
+    return bool(hit)
+
+
 # ----------------------------------------------------------------------
 def run_C01(run):
     q = run.tier == "quick"
@@ -94,6 +127,36 @@ def run_C01(run):
     run.validate_batch(tr, "paths-flowB")
 
 
+BASE_EXPR = dict(MaxNodes=1, UseCat=True, ElemNames={"a", "b"}, AttrNames=set(), TextVals={"1"}, WithComment=False, Parts=16)
+
+
+def run_C02(run):
+    q = run.tier == "quick"
+    # (1) one atomic predicate on a host step: host axis x predicate axis x atom form
+    run.gen_and_replay("MC_Expr", consts(BASE_EXPR, Family="C02a-small" if q else "C02a", MaxNodes=4 if q else 5, UseCat=True),
+                       name="preds-atoms", kind="sel-set")
+    # (2) nesting depth 2, and/or/not combinations
+    run.gen_and_replay("MC_Expr", consts(BASE_EXPR, Family="C02b", MaxNodes=1 if q else 4, UseCat=True),
+                       name="preds-nested", kind="sel-set")
+    # (3) two predicates on one step
+    run.gen_and_replay("MC_Expr", consts(BASE_EXPR, Family="C02two", MaxNodes=1 if q else 4, UseCat=True),
+                       name="preds-two", kind="sel-set")
+    # (4) parenthesised path followed by a predicate
+    run.gen_and_replay("MC_Expr", consts(BASE_EXPR, Family="C02paren", MaxNodes=4 if q else 5, UseCat=True),
+                       name="preds-paren", kind="sel-set")
+
+
+def run_C03(run):
+    q = run.tier == "quick"
+    ec = consts(BASE_EXPR, TextVals={"1"}, MaxNodes=5 if q else 6, UseCat=True)
+    # (1) child step with a positional first predicate in 8 host positions
+    run.gen_and_replay("MC_Expr", consts(ec, Family="C03a"), name="pos-first", kind="sel-set")
+    # (2) positional predicate followed by a boolean predicate
+    run.gen_and_replay("MC_Expr", consts(ec, Family="C03b", MaxNodes=4 if q else 5), name="pos-then-bool", kind="sel-set")
+    # (3) (flat path)[n] and (//name)[n]
+    run.gen_and_replay("MC_Expr", consts(ec, Family="C03paren"), name="paren-nth", kind="sel-set")
+
+
 def replay_one(run, path):
     rec = json.load(open(path))
     m = rec["mismatch"]
@@ -118,4 +181,6 @@ def replay_one(run, path):
 
 PROPS = {
     "C01": {"run": run_C01},
+    "C02": {"run": run_C02},
+    "C03": {"run": run_C03},
 }
